@@ -484,9 +484,9 @@ def exCS (script : List Stmt) : CS :=
   { dev := exDev script [],
     env := { now := 5, revents := 0, sockets := [], connects := [], soerrs := [], read := none, writeOk := true }, sys := [] }
 
-theorem exScript_good : exScript ≠ [] ∧ goodBlock exScript = true := by decide
+theorem exScript_good : exScript ≠ [] ∧ neBlock exScript = true := by decide
 
-theorem exInv (script : List Stmt) (h : script ≠ [] ∧ goodBlock script = true) (toBuf : Bytes) :
+theorem exInv (script : List Stmt) (h : script ≠ [] ∧ neBlock script = true) (toBuf : Bytes) :
     Inv false (exDev script toBuf).plugs (exDev script toBuf) (exAction script none) :=
   ⟨rfl, rfl, (initial_ok false [] script none h.1 h.2).1, rfl⟩
 
@@ -509,9 +509,12 @@ theorem exCompletes : Completes false (exDev [.send [120]] []).plugs (exAction [
   rw [hs] at this
   exact this
 
-/-- beyond 64 nested blocks the mirror leaves the reference: with 65 `foreachplug` around `send "x"; send "y"` one pass
-    of the mirror skips the `send "x"` -/
-theorem depth65_mirror : sents (processActionF 200 (exCS (exNest 65)) ⟨[]⟩ [] none).2.2.1 = [[121]] := by decide +kernel
+/-- regression (the mirror's inner loop used to stop after 64 pushes and the following `advance` then stepped over the
+    first statement of the innermost body): with 65 — or 200 — `foreachplug` around `send "x"; send "y"` one pass of
+    the mirror sends `x`, as the reference does -/
+theorem depth65_mirror : sents (processActionF 200 (exCS (exNest 65)) ⟨[]⟩ [] none).2.2.1 = [[120]] := by decide +kernel
+
+theorem depth200_mirror : sents (processActionF 400 (exCS (exNest 200)) ⟨[]⟩ [] none).2.2.1 = [[120]] := by decide +kernel
 
 theorem depth65_reference :
     sents (frun 5 200 (exDev (exNest 65) []) (info (exAction (exNest 65) none)) ⟨[]⟩
